@@ -19,9 +19,9 @@ import (
 // judged on its own.
 
 var (
-	maxU256 = new(big.Int).Sub(new(big.Int).Lsh(big.NewInt(1), 256), big.NewInt(1))
-	pow128  = new(big.Int).Lsh(big.NewInt(1), 128)
-	pow255  = new(big.Int).Lsh(big.NewInt(1), 255)
+	maxU256  = new(big.Int).Sub(new(big.Int).Lsh(big.NewInt(1), 256), big.NewInt(1))
+	pow128   = new(big.Int).Lsh(big.NewInt(1), 128)
+	pow255   = new(big.Int).Lsh(big.NewInt(1), 255)
 	zeroAddr common.Address
 )
 
